@@ -102,10 +102,15 @@ CLAIMED['C18'] = dict(
     text='Partial by design: isal_deflate_set_hufftables refuses with ISAL_INVALID_OPERATION unless state == ZSTATE_NEW_HDR and for unknown types / NULL custom table, on paths without any store, and stream->hufftables is assigned only behind that test; both builders call gen_huff_code_lens with MAX_DEFLATE_CODE_LEN first and with MAX_SAFE_LIT_CODE_LEN / MAX_SAFE_DIST_CODE_LEN exactly on the path guarded by are_hufftables_useable; 13 + (13+5) + (12+13) <= MAX_BITBUF_BIT_WRITE <= 56; the worst-case dynamic header fits ISAL_DEF_MAX_HDR_SIZE. NOT decided: that the builder yields complete prefix codes for every histogram and that the stored header parses back to them.',
     note='Trusts clang IR + sroa, tools/llir.py, clang constant evaluation.')
 
+CLAIMED['C14'] = dict(
+    category='other', design_ref='DESIGN.md section 8.2, C14',
+    technique='static analysis: constant propagation through sync_flush partitioned on the number of pending bits (all 8 values); per-flush-mode partial evaluation of control-flow graphs; dominance / post-dominance over LLVM IR',
+    text='Partial by design, three structural clauses that hold or fail for every input at once: (1) for every number 0..7 of bits pending in the bit buffer, the one write_bits that sync_flush issues is three zero header bits (non-final stored block), zero padding up to the byte boundary, LEN = 0000, NLEN = FFFF - the marker bytes and their alignment; (2) with flush == FULL_FLUSH every path from the marker write to the return clears has_hist, and in isal_deflate a test of has_hist == IGZIP_NO_HIST dominates every compressing call and always calls reset_match_history - no hash bucket survives a full flush; (3) isal_deflate_stateless forces end_of_stream only under NO_FLUSH, so a one-shot full-flush call leaves the stream unterminated. NOT decided: that everything fed so far is encoded and flushed before the marker, and decoding from the flush point (which needs the match finders\' window guards of C17 as well).',
+    note='Trusts clang IR + sroa, tools/constinterp.py, tools/llir.py dominators.')
+
 NOT_APPLICABLE = {
     'C07': 'quantifies over call histories and buffer schedules; resumption correctness depends on run-time counts carried in state, no structural clause beyond the state-enum mirror already checked under C01',
     'C09': 'algebraic property of run-time matrices (invertibility, products over GF(2^8)); nothing in the shape of the code decides it, and loop summarisation over symbolic (m,k) is out of reach of the analyses used',
-    'C14': 'statements about emitted bytes at call boundaries and match distances after a flush (run-time stream content); the only structural candidate would be a frozen-fragment rule',
 }
 
 PENDING = {}  # properties not yet implemented are listed as not_applicable with reason "check under construction"
